@@ -23,6 +23,8 @@ import random
 import sys
 import warnings
 
+sys.dont_write_bytecode = True  # never write __pycache__ into /verif or the repo
+
 try:
     import _common
 except ImportError:  # imported as bounded.b05_contexts (replay)
@@ -666,6 +668,8 @@ def shrink(env, program, cid, budget=150):
 def strip_ids(ev):
     """event without process-dependent ids, for display"""
     kind, path, payload = ev
+    if kind == "raw-contents-changed":
+        payload = [[p[0], p[1], p[2], p[3], sorted(k for k, _ in p[4])] for p in payload]
     if isinstance(payload, tuple) and len(payload) == 6:
         payload = {"depth": payload[0], "single": payload[1], "variadic": payload[2], "pytree": payload[3],
                    "argument_names": payload[5]}
@@ -765,6 +769,13 @@ def systematic(tier):
                     mid = ["call", "tg" if outer != "tg" else "bt", 2, 3, [["chk", "m", [1]], iop2, ["chk", "m", [1]]], "return", True]
                     body2 = [["chk", "m", [2]], mid, ["chk", "m", [2]], ["chk", "m", [3]], ["argchk", 2], ["pb"]]
                     progs.append(wrap(outer, body2))
+        # rejected calls (ill-typed argument: body must not run; non-binding argument list) leave the caller untouched
+        for kind in FN_KINDS:
+            for mode in ("illtyped", "nobind"):
+                if mode == "illtyped" and kind not in CHECKED:
+                    continue
+                progs.append(wrap(outer, [["chk", "m", [2]], ["badcall", kind, mode], ["chk", "m", [2]], ["chk", "m", [3]],
+                                          ["chk", "n", [3]], ["argchk", 2], ["pb"]]))
     # recursion: the same decorated function re-entered, a fresh n at every depth, unwinding by return or exception
     for kind in FN_KINDS:
         if kind.startswith("dc_"):
@@ -791,13 +802,28 @@ def has_context(program):
     return any(op[0] in ("call", "ctx", "gen", "badcall") for op in program) or False
 
 
+
+def _scrub(x):
+    """remove process-dependent addresses so that the output is identical for identical seeds"""
+    import re
+    if isinstance(x, str):
+        return re.sub(r"0x[0-9a-fA-F]+", "0x...", x)
+    if isinstance(x, list):
+        return [_scrub(v) for v in x]
+    if isinstance(x, tuple):
+        return [_scrub(v) for v in x]
+    if isinstance(x, dict):
+        return {k: _scrub(v) for k, v in x.items()}
+    return x
+
+
 def main():
     a = _common.setup(__doc__)
     import jaxtyping
     tally = _common.Tally()
     env = build_env(jaxtyping)
     rng = random.Random(a.seed)
-    n_random = 300 if a.tier == "quick" else 5000
+    n_random = 1500 if a.tier == "quick" else 20000
     maxd = 4 if a.tier == "quick" else 6
     programs = [("sys%d" % i, p) for i, p in enumerate(systematic(a.tier))]
     programs += [("rnd%d" % i, gen_body(rng, 0, maxd, top=True)) for i in range(n_random)]
@@ -829,6 +855,7 @@ def main():
                            "from bounded.b05_contexts import replay\nreplay(%s)" % json.dumps(small))
     for f in tally.failures:
         f["occurrences"] = seen_cases[f["case"]]["count"]
+    tally.failures = _scrub(tally.failures)
     _common.emit(
         tally,
         bound=("programs = trees of operations, nesting depth <= %d: decorated calls of kinds %s (new style typeguard/beartype, old style "
